@@ -59,7 +59,8 @@ type c20Env struct {
 
 func newC20Env() (*c20Env, error) {
 	e := &c20Env{st: sut.NewStack(histProto(true))}
-	e.didTr = didtransformer.New(didtransformer.WithBase(true), didtransformer.WithIncludePublishedOperations(true), didtransformer.WithIncludeUnpublishedOperations(true))
+	e.didTr = didtransformer.New(didtransformer.WithBase(true), didtransformer.WithIncludePublishedOperations(true), didtransformer.WithIncludeUnpublishedOperations(true),
+		didtransformer.WithMethodContext([]string{"https://w3id.org/did/method/v1", "https://example.org/ctx"}))
 	e.docTr = doctransformer.New(doctransformer.WithIncludePublishedOperations(true))
 	var err error
 	if e.handler, err = dochandler.New("did:ion"); err != nil {
@@ -83,9 +84,14 @@ func newC20Env() (*c20Env, error) {
 	return e, nil
 }
 
+type keepFn func(again func() string)
+
 type c20Call struct {
 	comp string
-	f    func(e *c20Env) string
+	// f runs the call on the shared environment and returns its canonical result. Through keep it may hand over a
+	// function that re-serializes the retained result object after all calls have finished: a result must not change
+	// because other calls ran on the same shared instance afterwards.
+	f func(e *c20Env, keep keepFn) string
 }
 
 func resStr(v interface{}, err error) string {
@@ -116,14 +122,14 @@ func c20Calls(r *fw.Rand, n int) []c20Call {
 		suffix := h.ch.Suffix
 		creq, ureq := cs.Built.Request, us.Built.Request
 		// parse
-		calls = append(calls, c20Call{"parser", func(e *c20Env) string {
+		calls = append(calls, c20Call{"parser", func(e *c20Env, keep keepFn) string {
 			op, err := e.st.Parser.Parse("did:ion", creq)
 			if err != nil {
 				return resStr(nil, err)
 			}
 			return resStr(map[string]interface{}{"t": op.Type, "s": op.UniqueSuffix, "id": op.ID, "ao": op.AnchorOrigin}, nil)
 		}})
-		calls = append(calls, c20Call{"parser", func(e *c20Env) string {
+		calls = append(calls, c20Call{"parser", func(e *c20Env, keep keepFn) string {
 			op, err := e.st.Parser.Parse("did:ion", ureq)
 			if err != nil {
 				return resStr(nil, err)
@@ -133,7 +139,7 @@ func c20Calls(r *fw.Rand, n int) []c20Call {
 			return resStr(map[string]interface{}{"t": op.Type, "s": op.UniqueSuffix, "rv": rv, "cm": cm}, nil)
 		}})
 		// apply create then the second operation (own state per call)
-		calls = append(calls, c20Call{"applier", func(e *c20Env) string {
+		calls = append(calls, c20Call{"applier", func(e *c20Env, keep keepFn) string {
 			s1, err := e.st.Applier.Apply(anchoredOf(cs, suffix), &protocol.ResolutionModel{})
 			if err != nil {
 				return resStr(nil, err)
@@ -147,23 +153,29 @@ func c20Calls(r *fw.Rand, n int) []c20Call {
 		// compose
 		doc, _ := startDoc(r, true)
 		pl := safePatchList(r, doc, 5)
-		calls = append(calls, c20Call{"composer", func(e *c20Env) string {
+		calls = append(calls, c20Call{"composer", func(e *c20Env, keep keepFn) string {
 			ld, _ := sut.ToDoc(doc)
 			lp, _ := sut.ToPatches(pl)
 			out, err := e.st.Composer.ApplyPatches(ld, lp)
+			if err == nil {
+				keep(func() string { return resStr(out, nil) })
+			}
 			return resStr(out, err)
 		}})
 		// transform (own model per call: the metadata builder sorts the lists in place)
 		_, tdoc := c18State(r)
 		pubs, unpubs := c18OpList(r, "p"), c18OpList(r, "u")
-		calls = append(calls, c20Call{"didtransformer", func(e *c20Env) string {
+		calls = append(calls, c20Call{"didtransformer", func(e *c20Env, keep keepFn) string {
 			ld, _ := sut.ToDoc(tdoc)
 			rm := &protocol.ResolutionModel{Doc: ld, UpdateCommitment: "u", RecoveryCommitment: "r", VersionID: "v", CreatedTime: 5,
 				PublishedOperations: append([]*operation.AnchoredOperation{}, pubs...), UnpublishedOperations: append([]*operation.AnchoredOperation{}, unpubs...)}
 			res, err := e.didTr.TransformDocument(rm, docutil.GetTransformationInfoForPublished("did:ion", "did:ion:"+suffix, suffix, rm))
+			if err == nil {
+				keep(func() string { return resStr(res, nil) })
+			}
 			return resStr(res, err)
 		}})
-		calls = append(calls, c20Call{"doctransformer", func(e *c20Env) string {
+		calls = append(calls, c20Call{"doctransformer", func(e *c20Env, keep keepFn) string {
 			ld, _ := sut.ToDoc(tdoc)
 			rm := &protocol.ResolutionModel{Doc: ld, PublishedOperations: append([]*operation.AnchoredOperation{}, pubs...)}
 			res, err := e.docTr.TransformDocument(rm, protocol.TransformationInfo{"id": "doc:" + suffix, "published": true})
@@ -178,15 +190,21 @@ func c20Calls(r *fw.Rand, n int) []c20Call {
 			did = did[:len(did)-3] + "AAA" // tampered: must be refused identically
 		}
 		sreq := sc.Built.Request
-		calls = append(calls, c20Call{"dochandler", func(e *c20Env) string {
+		calls = append(calls, c20Call{"dochandler", func(e *c20Env, keep keepFn) string {
 			res, err := e.handler.ResolveDocument(did)
+			if err == nil {
+				keep(func() string { return resStr(res, nil) })
+			}
 			return resStr(res, err)
 		}})
-		calls = append(calls, c20Call{"dochandler", func(e *c20Env) string {
+		calls = append(calls, c20Call{"dochandler", func(e *c20Env, keep keepFn) string {
 			res, err := e.handler.ProcessOperation(sreq)
+			if err == nil {
+				keep(func() string { return resStr(res, nil) })
+			}
 			return resStr(res, err)
 		}})
-		calls = append(calls, c20Call{"vdr", func(e *c20Env) string {
+		calls = append(calls, c20Call{"vdr", func(e *c20Env, keep keepFn) string {
 			res, err := e.vdr.Read(did)
 			if err != nil {
 				return resStr(nil, err)
@@ -196,7 +214,7 @@ func c20Calls(r *fw.Rand, n int) []c20Call {
 		}})
 		dd, _, _ := c17Doc(r)
 		uk, rk := gen.NewKey(r, gen.Ed25519), gen.NewKey(r, gen.P256)
-		calls = append(calls, c20Call{"vdr", func(e *c20Env) string {
+		calls = append(calls, c20Call{"vdr", func(e *c20Env, keep keepFn) string {
 			cp := *dd
 			res, err := e.vdr.Create(&cp, vdrapi.WithOption(sidetreelongform.UpdatePublicKeyOpt, uk.Public()), vdrapi.WithOption(sidetreelongform.RecoveryPublicKeyOpt, rk.Public()))
 			if err != nil {
@@ -206,7 +224,7 @@ func c20Calls(r *fw.Rand, n int) []c20Call {
 		}})
 		// registries: lookups of keys registered before the run
 		ns := fw.Pick(r, []string{"did:ion", "did:sidetree", "did:orb", "did:unknown"})
-		calls = append(calls, c20Call{"nsprovider", func(e *c20Env) string {
+		calls = append(calls, c20Call{"nsprovider", func(e *c20Env, keep keepFn) string {
 			cvp, err := e.nsp.ForNamespace(ns)
 			if err != nil {
 				return resStr(nil, err)
@@ -222,7 +240,7 @@ func c20Calls(r *fw.Rand, n int) []c20Call {
 			return "version:" + v.Version() + "/" + g.Version()
 		}})
 		ver := fw.Pick(r, []string{"1.0", "1", "1.0.5", "2.0", ""})
-		calls = append(calls, c20Call{"clientregistry", func(e *c20Env) string {
+		calls = append(calls, c20Call{"clientregistry", func(e *c20Env, keep keepFn) string {
 			v, err := e.reg.CreateClientVersion(ver, &vcommon.ProtocolConfig{EnableBase: true, MethodContext: []string{"ctx"}})
 			if err != nil {
 				return resStr(nil, err)
@@ -249,14 +267,16 @@ func c20Stress(c *fw.Case, goroutines, procs, ncalls int) {
 		return
 	}
 	want := make([]string, len(calls))
+	noKeep := func(func() string) {}
 	for i, cl := range calls {
-		want[i] = cl.f(seqEnv)
+		want[i] = cl.f(seqEnv, noKeep)
 	}
 	// concurrent run on ONE shared instance of each component
 	env, _ := newC20Env()
 	old := runtime.GOMAXPROCS(procs)
 	defer runtime.GOMAXPROCS(old)
 	got := make([]string, len(calls))
+	kept := make([]func() string, len(calls)) // slot i is written only by the goroutine executing call i
 	spans := make([]span, len(calls))
 	var wg sync.WaitGroup
 	startGate := make(chan struct{})
@@ -276,7 +296,7 @@ func c20Stress(c *fw.Case, goroutines, procs, ncalls int) {
 						}
 					}()
 					s := time.Since(t0).Nanoseconds()
-					got[i] = calls[i].f(env)
+					got[i] = calls[i].f(env, func(again func() string) { kept[i] = again })
 					spans[i] = span{g: g, start: s, end: time.Since(t0).Nanoseconds(), comp: calls[i].comp}
 				}()
 			}
@@ -297,6 +317,17 @@ func c20Stress(c *fw.Case, goroutines, procs, ncalls int) {
 	}
 	for k, v := range perComp {
 		c.Count("calls:"+k, v)
+	}
+	for i := range calls {
+		if kept[i] == nil {
+			continue
+		}
+		c.Count("retained-results-rechecked", 1)
+		if again := kept[i](); again != got[i] {
+			c.Failf("retained-result-changed:"+calls[i].comp, map[string]interface{}{"component": calls[i].comp, "at_return": got[i], "after_all_calls": again, "goroutines": goroutines, "GOMAXPROCS": procs},
+				"%s: a result changed after other calls ran on the same shared instance", calls[i].comp)
+			break
+		}
 	}
 	// overlap statistics: pairs of calls from different goroutines whose intervals intersect
 	idx := make([]int, len(spans))
